@@ -13,7 +13,7 @@ one() {
   WT=$(mktemp -d /tmp/pl-mx-XXXXXX)
   git -C /repo worktree add -f --detach "$WT" HEAD >/dev/null 2>&1
   if ! git -C "$WT" apply "$SDIR/$sid/patch.diff" 2>/dev/null; then echo "$sid PATCH-DOES-NOT-APPLY"; else
-    out=$(/verif/bin/pikelint -repo "$WT" -property all -no-evidence -verif /verif 2>&1)
+    out=$("${PIKELINT:-/verif/bin/pikelint}" -repo "$WT" -property all -no-evidence -verif /verif 2>&1)
     fired=$(echo "$out" | grep -E "^  (VIOLATED|UNDECIDED)" | awk '{print $2}' | sort -u | tr '\n' ' ')
     own=${sid%%-*}
     if echo "$fired" | grep -q "$own/"; then v="CAUGHT-BY-OWN"; elif [ -n "$fired" ]; then v="caught-by-other"; else v="MISSED"; fi
